@@ -448,9 +448,22 @@ pub fn gen_elem(rng: &mut Rng, uniq: &mut u32, allow_indef: bool) -> Elem {
                         'Q' => 22,
                         _ => 64,
                     };
-                    let pad = full.saturating_sub(digits.len());
+                    let mut pad = full.saturating_sub(digits.len());
                     let lead = match radix {
-                        // (22 octal digits hold 66 bits: the leading digit decides)
+                        // (22 octal digits hold 66 bits: the leading digit decides - so half of
+                        // the octal ones have exactly 22 digits, first digit 2..7, any digits
+                        // behind it)
+                        'Q' if pad > 0 && rng.chance(1, 2) => {
+                            pad -= 1;
+                            *rng.pick(&["2", "3", "4", "7"])
+                        }
+                        'Q' if rng.chance(1, 2) => {
+                            // 21 arbitrary digits behind the leading one
+                            let tail: String = (0..21).map(|_| char::from(b'0' + rng.below(8) as u8)).collect();
+                            let lead = *rng.pick(&["2", "3", "5", "7"]);
+                            let radix = if rng.chance(1, 2) { 'q' } else { 'Q' };
+                            return Elem::NonDec { radix, digits: format!("{}{}", lead, tail) };
+                        }
                         'Q' => *rng.pick(&["2", "7", "10"]),
                         'H' => *rng.pick(&["1", "F", "10"]),
                         _ => *rng.pick(&["1", "10"]),
